@@ -48,6 +48,11 @@ def stress_docs(rnd, n):
              "```{line-block}\nfirst\n  indented\n    deeper\nback\n```",
              # several raw nodes (a hard break makes two)
              "line a\\\nline b and <b>inline</b>\n\n<div>block</div>", "> ---\n\n~~s~~",
+             # a footnote reference inside an image's alt text (rendered as text only: nothing may be registered for it)
+             "![Rate[^f2] and [^f3]](rates.png)", "![a $m$ {sub}`2` b[^f1]](i.png)\n\n[^f1]: again",
+             # tables built by the mock state machine: empty fields, short rows, an empty corner
+             "```{csv-table}\n:header: a,,c\n\n1,,3\n4,5\n,,\n```", "```{csv-table} T\n:stub-columns: 1\n\n,h1\nr,\n```",
+             "```{list-table}\n* - a\n  -\n* - c\n  - d\n```",
              '<div class="admonition">\n<![foo]>\n</div>', '<img src="a.png" alt="x">', '<div class="admonition note">\n<p class="title">T</p>\nbody\n</div>']
     for t in range(n):
         k = rnd.randint(2, 8)
